@@ -182,7 +182,9 @@ type dbSite struct {
 
 // sites lists the state-touching constructs in method m: calls whose callee
 // reaches the secrets state, and direct accesses.
-func (d *dbInfo) sites(root *ssa.Function) []dbSite {
+func (d *dbInfo) sites(root *ssa.Function) []dbSite { return d.sitesDepth(root, 0) }
+
+func (d *dbInfo) sitesDepth(root *ssa.Function, depth int) []dbSite {
 	var out []dbSite
 	eng.InstrsTree(root, func(f *ssa.Function, in ssa.Instruction) {
 		if ci, ok := in.(ssa.CallInstruction); ok {
@@ -191,6 +193,14 @@ func (d *dbInfo) sites(root *ssa.Function) []dbSite {
 				cal = eng.Unwrap(cal)
 			}
 			if cal != nil && d.touch[cal] && cal.Parent() == nil {
+				// an unexported helper method of db.DB itself is part of the
+				// operation: its own state accesses are the sites
+				if depth < 2 && eng.IsHelper(root, cal) && recvIs(cal, "db", "DB") && cal != eng.Outer(root) {
+					if _, isChk := d.checkers[cal]; !isChk {
+						out = append(out, d.sitesDepth(cal, depth+1)...)
+						return
+					}
+				}
 				out = append(out, dbSite{Fn: f, In: in, Call: ci.Common(), Write: d.writes[cal]})
 			}
 		}
@@ -218,7 +228,7 @@ func isParam(v ssa.Value, prm *ssa.Parameter) bool {
 	if prm == nil || v == nil {
 		return false
 	}
-	if v == prm || eng.Origin(v) == prm {
+	if v == prm || eng.Origin(v) == prm || eng.OriginX(v) == ssa.Value(prm) {
 		return true
 	}
 	if al, ok := v.(*ssa.Alloc); ok {
@@ -235,7 +245,7 @@ func isParam(v ssa.Value, prm *ssa.Parameter) bool {
 
 // constAction returns the acl.Action constant value of v.
 func constAction(v ssa.Value) (string, bool) {
-	c, ok := eng.Origin(v).(*ssa.Const)
+	c, ok := eng.OriginX(v).(*ssa.Const)
 	if !ok || c.Value == nil || c.Value.Kind() != constant.String {
 		return "", false
 	}
@@ -251,7 +261,7 @@ func allowCall(cc *ssa.CallCommon) (holder ssa.Value, action ssa.Value, name ssa
 	if !eng.CalleeIs(cc, "acl", "Rules.Allow") || len(cc.Args) != 3 {
 		return nil, nil, nil, false
 	}
-	fr, base, isField := eng.LoadedField(cc.Args[0])
+	fr, base, isField := eng.LoadedField(eng.OriginX(cc.Args[0]))
 	if !isField || !fr.Is("db", "Caller", "Permissions") {
 		return nil, cc.Args[1], cc.Args[2], true
 	}
@@ -276,7 +286,7 @@ func (d *dbInfo) successfulCheck(c eng.Cond, prm *ssa.Parameter, action string, 
 					return false, cn + " action is not a constant: " + eng.ValStr(a[sig.Action])
 				case act != action:
 					return false, cn + " checks action " + act + ", operation requires " + action
-				case !eng.Same(a[sig.Name], name):
+				case !eng.SameX(a[sig.Name], name):
 					return false, cn + " checks name " + eng.ValStr(a[sig.Name]) + ", access uses " + eng.ValStr(name)
 				}
 				return true, ""
@@ -293,7 +303,7 @@ func (d *dbInfo) successfulCheck(c eng.Cond, prm *ssa.Parameter, action string, 
 				return false, "Allow action is not a constant"
 			case act != action:
 				return false, "Allow checks action " + act + ", operation requires " + action
-			case !eng.Same(nv, name):
+			case !eng.SameX(nv, name):
 				return false, "Allow checks name " + eng.ValStr(nv) + ", access uses " + eng.ValStr(name)
 			}
 			return true, ""
